@@ -514,6 +514,9 @@ def compare(mblocks, iblocks, has_progs):
             times = collections.defaultdict(set)
             for ln in b:
                 p = ln.split()
+                if p[0] == "TIE":
+                    times["TIE"] |= {"a", "b"}      # the model saw two tasks runnable at one instant
+                    continue
                 if p[0] == "J" and strip_phase:
                     st.append(" ".join(p[:7]))
                 elif p[0] == "EV":
